@@ -76,6 +76,36 @@ NumLitMV(s) ==                                           \* MV, rounded to the N
           [] kd = "oct" -> RoundD(FALSE, BnOfOctAt(s, 2, <<>>), 0)
           [] kd = "dec" -> UnsignedDecToNum(s, FALSE).n
 
+(* 7.8.3 last paragraph: a decimal literal with more than 20 significant      *)
+(* digits may denote the MV of the literal, or of the literal whose digits   *)
+(* after the 20th are replaced by 0, or of that with the 20th digit          *)
+(* incremented.  NumLitAmbiguous: these three round to different Numbers     *)
+(* (such a literal is "ext": not judged).                                    *)
+RECURSIVE LeadZeros(_, _)
+LeadZeros(d, i) == IF i <= Len(d) /\ d[i] = 48 THEN LeadZeros(d, i + 1) ELSE i - 1
+RECURSIVE TrailZeros(_, _)
+TrailZeros(d, j) == IF j >= 1 /\ d[j] = 48 THEN TrailZeros(d, j - 1) ELSE Len(d) - j
+NumLitAmbiguous(s) ==
+    IF NumLitKind(s) # "dec" THEN FALSE
+    ELSE LET i1 == SpanDigits(s, 1)
+             hasDot == i1 <= Len(s) /\ s[i1] = 46
+             f0 == IF hasDot THEN i1 + 1 ELSE i1
+             f1 == IF hasDot THEN SpanDigits(s, f0) ELSE f0
+             frD == SubSeq(s, f0, f1 - 1)
+             hasExp == f1 <= Len(s) /\ s[f1] \in {101, 69}
+             es == IF hasExp /\ f1 + 1 <= Len(s) /\ s[f1 + 1] \in {43, 45} THEN f1 + 2 ELSE f1 + 1
+             eneg == hasExp /\ f1 + 1 <= Len(s) /\ s[f1 + 1] = 45
+             ev == IF hasExp THEN (IF eneg THEN -1 ELSE 1) * SatNat(s, es, 0) ELSE 0
+             D0 == SubSeq(s, 1, i1 - 1) \o frD
+             Dn == SubSeq(D0, LeadZeros(D0, 1) + 1, Len(D0))
+             n == Len(Dn)
+             sig == n - TrailZeros(Dn, n)
+             q0 == ev - Len(frD)
+         IN  IF sig <= 20 THEN FALSE
+             ELSE LET lo == BnOfDigits(SubSeq(Dn, 1, 20))
+                      exact == DecToNum(FALSE, BnOfDigits(Dn), q0)
+                  IN  DecToNum(FALSE, lo, q0 + n - 20) # exact \/ DecToNum(FALSE, BnAdd(lo, <<1>>), q0 + n - 20) # exact
+
 -----------------------------------------------------------------------------
 (* 7.8.4 string literals (SV), B.1.2 octal escapes.  Result [ok, s, why];    *)
 (* why = "ext": the text is outside ES5 but commonly accepted (\8, \128)     *)
@@ -186,7 +216,9 @@ RECURSIVE PPrimary(_, _), PTail(_, _, _, _), PNewExpr(_, _), PLhs(_, _), PPostfi
 PPrimary(T, i) ==
     LET tk == Tk(T, i) IN
     CASE tk.t = "id" -> Ok([k |-> "id", n |-> tk.v], i + 1)
-      [] tk.t = "num" -> IF NumLitOK(tk.src) THEN Ok([k |-> "num", v |-> NumLitMV(tk.src)], i + 1) ELSE Fail(i, "syntax")
+      [] tk.t = "num" -> IF ~NumLitOK(tk.src) THEN Fail(i, "syntax")
+                         ELSE IF NumLitAmbiguous(tk.src) THEN Fail(i, "ext")
+                         ELSE Ok([k |-> "num", v |-> NumLitMV(tk.src)], i + 1)
       [] tk.t = "str" -> LET sv == StrLitSV(tk.src)
                          IN  IF sv.ok THEN Ok([k |-> "str", s |-> sv.s], i + 1) ELSE Fail(i, sv.why)
       [] tk.t = "re" ->
